@@ -76,7 +76,8 @@ def gen_dag17(rng: random.Random) -> dict:
             if av:
                 sig = f"sig{sig_i}"
                 sig_i += 1
-                dec = nodes[t]["name"] if rng.random() < 0.7 else "@END"
+                r_ = rng.random()
+                dec = nodes[t]["name"] if r_ < 0.6 else ("@END" if r_ < 0.8 else None)  # None: no target this round - the signal is emitted all the same
                 gate = {"kind": "route", "name": "gt", "params": [param(rng.choice(av))], "targets": [nodes[t]["name"], "@END"], "decide": {"op": "const", "value": dec}, "default_open": False, "emit": [sig]}
                 later = [i for i in range(t, len(nodes)) if nodes[i]["kind"] == "fn"]
                 w = rng.choice(later)
